@@ -27,6 +27,11 @@ func sortCalls(info *types.Info, n ast.Node) []sortInfo {
 	var out []sortInfo
 	for _, c := range core.CallsIn(n, false) {
 		nm := core.CalleeName(info, c)
+		if (nm == "slices.Sort" || nm == "sort.Ints" || nm == "sort.Strings") && len(c.Args) == 1 {
+			// the natural ascending order of the elements
+			out = append(out, sortInfo{Call: c, Slice: c.Args[0], SliceObj: core.ObjOf(info, c.Args[0]), Op: token.LSS, KeyI: "·", KeyJ: "·", Decided: true, Strict: true})
+			continue
+		}
 		if nm != "sort.Slice" && nm != "sort.SliceStable" && nm != "slices.SortFunc" && nm != "slices.SortStableFunc" {
 			continue
 		}
